@@ -228,7 +228,7 @@ theorem pcOk_other (hI : Inv c s) (ht : s.tasks[t]? = some tk) (hr : ActR c s tk
   case iWrHit v x => obtain ⟨w, h1, h2⟩ := hold; exact ⟨w, hal _ _ h1, h2⟩
   case iWrNew v x => obtain ⟨w, h1, h2⟩ := hold; exact ⟨w, hal _ _ h1, h2⟩
   case gDone k r =>
-    cases r <;> simp only [PcOk] at hold ⊢
+    cases r <;> simp only at hold ⊢
     obtain ⟨w, h1, h2⟩ := hold; exact ⟨w, hal _ _ h1, h2⟩
   case vTemp l k x => obtain ⟨hl, w, h1, h2⟩ := hold; exact ⟨hl, w, hal _ _ h1, h2⟩
 
@@ -294,7 +294,7 @@ theorem pcOk_spawn {c : Cfg} {s : State} {pc : Pc} (h : PcOk c s pc) :
     PcOk c ⟨s.tasks ++ [(⟨.idle, [], none⟩ : Task)], s.table, s.allocs⟩ pc := by
   cases pc <;> simp only [PcOk] at h ⊢ <;> try exact h
   case iWrDead v => exact fun a ha hl => h a ha (live_spawn hl)
-  case gDone k r => cases r <;> simp only [PcOk] at h ⊢ <;> exact h
+  case gDone k r => cases r <;> simp only at h ⊢ <;> exact h
 
 theorem inv_step {c : Cfg} {s s' : State} {e : Ev} (hI : Inv c s) (h : step c s e = some s') : Inv c s' := by
   cases e with
